@@ -77,6 +77,10 @@ class StateHooks(Hooks):
             exc = st.alloc(eng.program.cls("exceptions.BackgroundThreadError"), {"args": ("stored",), "source_exception": eng.new_symexc(st, "src")})
             st.emit("failed_wait", exc=exc)
             return [("raise", exc, st)]
+        if n == "StoppedEvent.is_set":
+            b = fresh("bool", "stopped_is_set")
+            st.emit("stopped_check", b=b.t)
+            return [("val", b, st)]
         if n == "CompletionEventObj.is_set":
             b = fresh("bool", "completion_is_set")
             st.emit("completion_is_set", b=b.t)
@@ -413,8 +417,13 @@ def create_checkpoint(chk, prefix, want):
     completed = z3.Array("completed_contexts", SS, z3.BoolSort())  # ghost: contexts whose SUCCEED/FAIL was handed over
     cc0 = z3.Array("state_completed_contexts", SS, z3.BoolSort())
     comp_set = new_zset(st, cc0, name="completed")
+    # every field the real __init__ creates exists (a field this contract has no model for is an opaque object: reading it is possible, what it returns is arbitrary)
     self_ = st.alloc(P.cls("state.ExecutionState"), {"_parent_to_children": m, "_parent_done": done, "_completed_contexts": comp_set, "_parent_done_lock": st.alloc("opaque:Lock", {}),
-                                                    "_checkpointing_failed": st.alloc("opaque:FailedEvent", {}), "_checkpoint_queue": st.alloc("opaque:Queue", {})})
+                                                    "_checkpointing_failed": st.alloc("opaque:FailedEvent", {}), "_checkpoint_queue": st.alloc("opaque:Queue", {}),
+                                                    "_checkpointing_stopped": st.alloc("opaque:StoppedEvent", {}), "_overflow_queue": st.alloc("opaque:OverflowQueue", {}),
+                                                    "_operations_lock": st.alloc("opaque:Lock", {}), "_replay_status_lock": st.alloc("opaque:Lock", {}), "_ordered_checkpoint_lock": st.alloc("opaque:OrderedLockObj", {}),
+                                                    "durable_execution_arn": fresh("str", "arn"), "_current_checkpoint_token": fresh("str", "token"), "_service_client": st.alloc("opaque:ServiceClient", {}),
+                                                    "_batcher_config": st.alloc("opaque:BatcherConfig", {})})
     upd0 = eng.sym_of_type("OperationUpdate", "u", st, P.modules["lambda_service"])
     upd = mk_opt(z3.Bool("u.is_none"), upd0)
     is_sync = fresh("bool", "is_sync")
@@ -497,6 +506,10 @@ def create_checkpoint(chk, prefix, want):
             elif any(e.kind == "wait_raised" for e in s.trace):
                 chk.prove(f"{prefix}.state.sync_blocks.error_propagates", s.pc, isinstance(v, Ref) and v == [e for e in s.trace if e.kind == "wait_raised"][0].exc and len(puts) == 1,
                           desc="a failure stored in the completion event leaves create_checkpoint as the raised exception (the caller never proceeds)")
+            elif not orphan and not failed:
+                chk.prove(f"{prefix}.state.sync_blocks.raises_only_expected", s.pc, F,
+                          desc="create_checkpoint raises only: OrphanedChildException (refused), the failure stored in the failed flag, or the failure stored in the caller's completion event",
+                          sample=f"create_checkpoint raised {getattr(getattr(v, 'cls', None), 'name', getattr(v, 'cls', v))}")
             if k == "val" or waits:
                 ip = s.trace.index(puts[0]) if puts else -1
                 iw = s.trace.index(waits[0]) if waits else len(s.trace)
